@@ -349,6 +349,15 @@ class Exec:
             raise Unsupported(f"unknown repo function {qual}")
         fdef, modqual, clsqual = r
         real_qual = f"{clsqual}.{fdef.name}" if clsqual else f"{modqual}.{fdef.name}"
+        # decorators: staticmethod / classmethod decide what is bound; any other decorator may change the function
+        deco = [ast.unparse(d) for d in fdef.decorator_list]
+        for d in deco:
+            if d not in ("staticmethod", "classmethod", "property"):
+                raise Unsupported(f"decorator @{d} on {real_qual}")
+        if "staticmethod" in deco:
+            self_obj = None
+        elif "classmethod" in deco and clsqual:
+            self_obj = ClassRef(clsqual)
         if self_obj is not None:
             args = [self_obj] + list(args)
         if self.call_depth > 0:
@@ -692,6 +701,15 @@ class Exec:
             return
         # symbolic length: needs a loop contract
         spec, ordn = self.loop_spec(s, fr)
+        if spec is None and hasattr(fr, "yielded") and len(s.body) == 1 and not s.orelse and isinstance(s.body[0], ast.Expr) \
+                and isinstance(s.body[0].value, ast.Yield) and isinstance(s.target, ast.Name) \
+                and isinstance(s.body[0].value.value, ast.Name) and s.body[0].value.value.id == s.target.id:
+            # `for x in seq: yield x` in a generator is `yield from seq` (the elements, in order)
+            if isinstance(fr.yielded, list) and not fr.yielded:
+                if isinstance(it, SeqIter) and getattr(it, "pool", None) is not None:
+                    fr.gen_pool = it.pool
+                fr.yielded = seq
+                return
         if spec is None:
             raise Unsupported(f"loop #{ordn} of {fr.funcqual} (line {s.lineno}) iterates a symbolic-length "
                               f"sequence and has no invariant")
